@@ -174,6 +174,8 @@ def dq_labels(prog, s):
                 if k < len(ops[t]) and ops[t][k][0] == "close":
                     labels.append(Atom("close1"))
             elif lab == "Lock.acquire":
+                if k >= len(ops[t]):
+                    return None        # more critical sections than calls: the code's locking structure is not the model's
                 op = ops[t][k]
                 cur[t] = k + 1
                 if op[0] == "put":
